@@ -209,6 +209,101 @@ pub fn c08_long() -> EnumOutcome {
     out
 }
 
+/// lines / lists of 250..300 tokens with every short string (resp. every long token) in the middle
+pub fn c07_many_tokens(mid_len: u32) -> EnumOutcome {
+    let t0 = Instant::now();
+    let nmid = count_strings(C07_SIGMA.len() as u64, mid_len);
+    let ks = [127usize, 128, 254, 255, 256, 257, 300];
+    let total = ks.len() as u64 * nmid * 2;
+    let mut out = (0..ks.len())
+        .into_par_iter()
+        .map(|ki| {
+            let mut o = EnumOutcome::default();
+            let mut mid = String::new();
+            let kk = ks[ki];
+            for mi in 0..nmid {
+                nth_string(&C07_SIGMA, mi, &mut mid);
+                for tail in [0usize, 3] {
+                    let mut line = "a ".repeat(kk);
+                    line.push_str(&mid);
+                    line.push_str(&" é".repeat(tail));
+                    o.evaluations += 1;
+                    o.distinct_nontrivial += 1;
+                    let adm = tokens_adm(&line);
+                    match real_tokens(&line) {
+                        Ok(got) => {
+                            if !adm.contains(&got) {
+                                o.viol("C07/many-tokens", format!("line of {} tokens + {:?}: Tokens::new gives {} tokens ending {:?}, rules give {:?}", kk, mid, got.len(), &got[got.len().saturating_sub(4)..], adm.iter().map(|a| a.len()).collect::<Vec<_>>()), vec![line.clone()]);
+                            }
+                        }
+                        Err(m) => o.viol("C07/tokeniser-failure", format!("line {:?}: {}", line, m), vec![line.clone()]),
+                    }
+                }
+            }
+            o
+        })
+        .reduce(EnumOutcome::default, |mut a, b| {
+            a.merge(b);
+            a
+        });
+    out.name = format!("tokeniser, many tokens: (a )^k . every string of <= {} symbols . ( é)^0|3 for k in {:?}", mid_len, ks);
+    out.rule = "lines of 127..300 tokens followed by every short string over the C07 alphabet".into();
+    out.expected = Some(total);
+    out.exhaustive = out.evaluations == total;
+    out.samples = vec![json!({"line": "a a a ... (256 times) \"a"})];
+    out.wall_s = t0.elapsed().as_secs_f64();
+    out
+}
+
+pub fn c08_many_tokens() -> EnumOutcome {
+    let t0 = Instant::now();
+    let toks = c08_long_tokens();
+    let ks = [127usize, 128, 254, 255, 256, 257, 300];
+    let fillers = ["v", "-x", "--long", "", "-", "-aé"];
+    let total = (ks.len() * toks.len() * 2) as u64;
+    let mut out = (0..toks.len())
+        .into_par_iter()
+        .map(|ti| {
+            let mut o = EnumOutcome::default();
+            for &kk in &ks {
+                for dd in [false, true] {
+                    let mut list: Vec<String> = (0..kk).map(|i| fillers[i % fillers.len()].to_string()).collect();
+                    if dd {
+                        list.insert(kk / 2, "--".to_string());
+                    }
+                    list.push(toks[ti].clone());
+                    list.push("v".into());
+                    o.evaluations += 1;
+                    o.distinct_nontrivial += 1;
+                    let want = classify(&list);
+                    match real_classify(&list) {
+                        Ok(got) => {
+                            if got != want {
+                                let at = got.iter().zip(want.iter()).position(|(a, b)| a != b).unwrap_or(got.len().min(want.len()));
+                                o.viol("C08/many-tokens", format!("list of {} tokens (-- in the middle: {}) ending in {:?}: item {} is {:?}, rules give {:?} ({} vs {} items)", list.len(), dd, toks[ti], at, got.get(at), want.get(at), got.len(), want.len()), vec![format!("{} fillers", kk), toks[ti].clone()]);
+                            } else if !rejoin_ok(&list, &got) {
+                                o.viol("C08/rejoin", format!("list of {} tokens ending in {:?}: items do not spell the tokens", list.len(), toks[ti]), vec![format!("{} fillers", kk), toks[ti].clone()]);
+                            }
+                        }
+                        Err(m) => o.viol("C08/classifier-failure", format!("list of {} tokens: {}", list.len(), m), vec![format!("{} fillers", kk), toks[ti].clone()]),
+                    }
+                }
+            }
+            o
+        })
+        .reduce(EnumOutcome::default, |mut a, b| {
+            a.merge(b);
+            a
+        });
+    out.name = format!("classifier, many tokens: k fillers (with and without `--` in the middle) . every long token . v, k in {:?}", ks);
+    out.rule = "lists of 129..303 tokens".into();
+    out.expected = Some(total);
+    out.exhaustive = out.evaluations == total;
+    out.samples = vec![json!({"tokens": "v -x --long '' - -aé ... (256 fillers) ----a v"})];
+    out.wall_s = t0.elapsed().as_secs_f64();
+    out
+}
+
 // ------------------------------------------------------------------ C09: value conversion
 
 const C09_VALUE_SIGMA: [&str; 14] = ["0", "1", "2", "5", "9", "+", "-", ".", "e", "x", "_", " ", "a", "é"];
